@@ -278,7 +278,7 @@ def check_radar(col, binpath, rng, tag, seg_kind, delay_kind, malformed, disconn
         opts.append("--limit-parsing")
     plan = steps + [("mark", "feed_done")]
     lines2, expect2 = [], {}
-    if disconnect in ("retry", "retry_midline", "retry_backlog"):
+    if disconnect in ("retry", "retry_midline", "retry_backlog", "retry_reset"):
         opts.append("--retry-tcp")
         # second connection: more lines for the same aircraft; counts must continue
         addrs = list(expect.keys())
@@ -290,6 +290,9 @@ def check_radar(col, binpath, rng, tag, seg_kind, delay_kind, malformed, disconn
         if disconnect == "retry_midline":
             # the connection drops in the middle of a line: what was received of it must not leak into the next connection
             plan += [("sleep", 3.0), ("send", b"*8D4840D6202C"), ("sleep", 0.3), ("close",), ("sleep", rng.choice([0.1, 0.5])), ("accept", 25.0)]
+        elif disconnect == "retry_reset":
+            # the server dies abortively (RST instead of FIN) and comes back
+            plan += [("sleep", 3.0), ("reset",), ("sleep", rng.choice([0.1, 0.5])), ("accept", 25.0)]
         elif disconnect == "retry_backlog":
             # the server stays up but does not accept for longer than the client's 10 s connect timeout
             plan += [("sleep", 3.0), ("close",), ("saturate", 13.0, 40.0)]
@@ -298,6 +301,8 @@ def check_radar(col, binpath, rng, tag, seg_kind, delay_kind, malformed, disconn
         plan += [("send", d) for _, d, *_ in lines2] + [("mark", "feed2_done"), ("sleep", 60)]
     elif disconnect == "midline":
         plan += [("sleep", 3.0), ("send", b"*8D4840D6202C"), ("sleep", 0.2), ("close",), ("sleep", 20)]
+    elif disconnect == "reset":
+        plan += [("sleep", 3.0), ("reset",), ("sleep", 20)]
     else:
         plan += [("sleep", 3.0), ("close",), ("sleep", 20)]
     cls = f"seg={seg_kind}|delay={delay_kind}|malformed={malformed}" + ("|limit_parsing" if limit else "")
@@ -333,7 +338,7 @@ def check_radar(col, binpath, rng, tag, seg_kind, delay_kind, malformed, disconn
         # ---- disconnect behaviour
         if any(e[1] == "closed" for e in sess.srv.log) and not sess.p.alive() and disconnect != "retry":
             pass
-        if disconnect in ("retry", "retry_midline", "retry_backlog"):
+        if disconnect in ("retry", "retry_midline", "retry_backlog", "retry_reset"):
             end = time.monotonic() + 90
             while time.monotonic() < end and not any(e[1] == "mark" and e[2] == "feed2_done" for e in sess.srv.log):
                 sess.p.pump(0.05)
@@ -401,7 +406,7 @@ def main(a, lcol, col, run_all, scratch, START):
     n_backlog = 0
     for i, (sk, dk, m) in enumerate(combos):
         tag = f"{sk}/{dk}/{m}#{i}"
-        disc = ["close", "retry", "midline", "retry_midline"][i % 4]
+        disc = ["close", "retry", "midline", "retry_midline", "reset", "retry_reset"][i % 6]
         if i % 40 == 21 and (thorough or n_backlog == 0):
             disc = "retry_backlog"
             n_backlog += 1
@@ -424,6 +429,6 @@ def main(a, lcol, col, run_all, scratch, START):
     col.sample({"scenario": "radar per_line/none/none", "what": "20-70 unique '*<hex>;' lines for 1-5 aircraft; per-aircraft Msgs column and last callsign compared after the feed; then server close -> exit status / terminal restored"})
     col.sample({"scenario": "1090 cut_in_hex/gt_timeout/none", "what": "every line cut in the middle of its hex digits with 70-150 ms pauses; stdout echo sequence must equal the sent sequence"})
     return vlib.finish(col, "C16", a.tier, a.seed, "fault_enumeration",
-        "each scenario = one fresh client process against a scripted TCP feed of unique '*<hex>;' lines: 9 segmentation kinds x 4 delay classes (below / around / above the 50 ms read timeout) x 17 malformed-line kinds (incl. near-miss framing of a decodable ghost frame: missing, doubled, misplaced markers) (each followed by sentinel lines) x 5 disconnect modes (close / close mid-line / close+re-accept with --retry-tcp / drop mid-line + re-accept / server alive but not accepting for 13 s); 1090: stdout echo sequence == sent sequence; radar: per-aircraft Msgs column == lines sent, callsign == last identification line, tab title count, exit status and terminal state after a disconnect, counts continue after a reconnect; distinct_nontrivial = distinct (client, segmentation, delay, malformed, disconnect) cells run",
+        "each scenario = one fresh client process against a scripted TCP feed of unique '*<hex>;' lines: 9 segmentation kinds x 4 delay classes (below / around / above the 50 ms read timeout) x 19 malformed-line kinds (incl. near-miss framing of a decodable ghost frame: missing, doubled, misplaced markers) (each followed by sentinel lines) x 7 disconnect modes (close / close mid-line / abortive close (RST) / close+re-accept with --retry-tcp / drop mid-line + re-accept / RST + re-accept / server alive but not accepting for 13 s); 1090: stdout echo sequence == sent sequence; radar: per-aircraft Msgs column == lines sent, callsign == last identification line, tab title count, exit status and terminal state after a disconnect, counts continue after a reconnect; distinct_nontrivial = distinct (client, segmentation, delay, malformed, disconnect) cells run",
         ["delays are relative to a 50 ms timeout on a loaded machine: the number of mid-line pauses > 50 ms is what the plan requested, the property must hold for every schedule", "CRLF-terminated lines are not counted as well-formed lines"],
-        a.verif, START, n, len(col.classes), extra={"fault_kinds": {"segmentations": SEGMENTATIONS, "delays": list(DELAYS), "malformed": malformed_kinds, "disconnect": ["close", "midline", "retry", "retry_midline", "retry_backlog"]}}, min_evaluations=10)
+        a.verif, START, n, len(col.classes), extra={"fault_kinds": {"segmentations": SEGMENTATIONS, "delays": list(DELAYS), "malformed": malformed_kinds, "disconnect": ["close", "midline", "reset", "retry", "retry_midline", "retry_reset", "retry_backlog"]}}, min_evaluations=10)
